@@ -84,6 +84,28 @@ fn z_curve_partition<const D: usize>(
             }
         }
         crate::verif::record("zcurve_codes", codes);
+        // the box and the rotated coordinates the quadrants are computed from
+        let aabb = obb.aabb();
+        crate::verif::record(
+            "zcurve_aabb",
+            aabb.p_min
+                .iter()
+                .chain(aabb.p_max.iter())
+                .map(|c| c.to_bits())
+                .collect(),
+        );
+        crate::verif::record(
+            "zcurve_rotated",
+            points
+                .iter()
+                .flat_map(|p| {
+                    obb.obb_to_aabb(p)
+                        .iter()
+                        .map(|c| c.to_bits())
+                        .collect::<Vec<u64>>()
+                })
+                .collect(),
+        );
     }
 
     let points_per_partition = points.len() / part_count;
